@@ -83,6 +83,66 @@ theorem shapeF_batch_row1_expdata5_eq (lpois : ℝ → ℝ → ℝ) (lnorm : ℝ
     Gen.shapeF_batch_row1_expdata5 realPrim lpois lnorm s0 s1 es0 es1 b0 b1 u0 u1 eb0 eb1 r0_p_mu r0_p_uncorr_0 r0_p_uncorr_1 r0_p_stat_SR_0 r0_p_stat_SR_1 r1_p_mu r1_p_uncorr_0 r1_p_uncorr_1 r1_p_stat_SR_0 r1_p_stat_SR_1 r0_d0 r0_d1 r0_a0 r0_a1 r0_a2 r0_a3 r1_d0 r1_d1 r1_a0 r1_a1 r1_a2 r1_a3 = Gen.shapeF_expdata5 realPrim s0 s1 es0 es1 b0 b1 u0 u1 eb0 eb1 r1_p_mu r1_p_uncorr_0 r1_p_uncorr_1 r1_p_stat_SR_0 r1_p_stat_SR_1 := by
   first | rfl | (unfold Gen.shapeF_batch_row1_expdata5 Gen.shapeF_expdata5; norm_num <;> ring_nf)
 
+/-- shapeH: row 0 of the batched `logpdf` = the unbatched `logpdf` of row 0's parameters on row 0's data -/
+theorem shapeH_batch_row0_logpdf_eq (lpois : ℝ → ℝ → ℝ) (lnorm : ℝ → ℝ → ℝ → ℝ) (s0 s1 b0 b1 e0 r0_p_lumi r0_p_mu r0_p_stat_SR_0 r0_p_stat_SR_1 r1_p_lumi r1_p_mu r1_p_stat_SR_0 r1_p_stat_SR_1 r0_d0 r0_d1 r0_a0 r0_a1 r0_a2 r1_d0 r1_d1 r1_a0 r1_a1 r1_a2 : ℝ) :
+    Gen.shapeH_batch_row0_logpdf realPrim lpois lnorm s0 s1 b0 b1 e0 r0_p_lumi r0_p_mu r0_p_stat_SR_0 r0_p_stat_SR_1 r1_p_lumi r1_p_mu r1_p_stat_SR_0 r1_p_stat_SR_1 r0_d0 r0_d1 r0_a0 r0_a1 r0_a2 r1_d0 r1_d1 r1_a0 r1_a1 r1_a2 = Gen.shapeH_logpdf realPrim lpois lnorm s0 s1 b0 b1 e0 r0_p_lumi r0_p_mu r0_p_stat_SR_0 r0_p_stat_SR_1 r0_d0 r0_d1 r0_a0 r0_a1 r0_a2 := by
+  first | rfl | (unfold Gen.shapeH_batch_row0_logpdf Gen.shapeH_logpdf; norm_num <;> ring_nf)
+
+/-- shapeH: row 0, entry 0 of the batched `expected_data` = entry 0 of the unbatched one at row 0's parameters -/
+theorem shapeH_batch_row0_expdata0_eq (lpois : ℝ → ℝ → ℝ) (lnorm : ℝ → ℝ → ℝ → ℝ) (s0 s1 b0 b1 e0 r0_p_lumi r0_p_mu r0_p_stat_SR_0 r0_p_stat_SR_1 r1_p_lumi r1_p_mu r1_p_stat_SR_0 r1_p_stat_SR_1 r0_d0 r0_d1 r0_a0 r0_a1 r0_a2 r1_d0 r1_d1 r1_a0 r1_a1 r1_a2 : ℝ) :
+    Gen.shapeH_batch_row0_expdata0 realPrim lpois lnorm s0 s1 b0 b1 e0 r0_p_lumi r0_p_mu r0_p_stat_SR_0 r0_p_stat_SR_1 r1_p_lumi r1_p_mu r1_p_stat_SR_0 r1_p_stat_SR_1 r0_d0 r0_d1 r0_a0 r0_a1 r0_a2 r1_d0 r1_d1 r1_a0 r1_a1 r1_a2 = Gen.shapeH_expdata0 realPrim s0 s1 b0 b1 e0 r0_p_lumi r0_p_mu r0_p_stat_SR_0 r0_p_stat_SR_1 := by
+  first | rfl | (unfold Gen.shapeH_batch_row0_expdata0 Gen.shapeH_expdata0; norm_num <;> ring_nf)
+
+/-- shapeH: row 0, entry 1 of the batched `expected_data` = entry 1 of the unbatched one at row 0's parameters -/
+theorem shapeH_batch_row0_expdata1_eq (lpois : ℝ → ℝ → ℝ) (lnorm : ℝ → ℝ → ℝ → ℝ) (s0 s1 b0 b1 e0 r0_p_lumi r0_p_mu r0_p_stat_SR_0 r0_p_stat_SR_1 r1_p_lumi r1_p_mu r1_p_stat_SR_0 r1_p_stat_SR_1 r0_d0 r0_d1 r0_a0 r0_a1 r0_a2 r1_d0 r1_d1 r1_a0 r1_a1 r1_a2 : ℝ) :
+    Gen.shapeH_batch_row0_expdata1 realPrim lpois lnorm s0 s1 b0 b1 e0 r0_p_lumi r0_p_mu r0_p_stat_SR_0 r0_p_stat_SR_1 r1_p_lumi r1_p_mu r1_p_stat_SR_0 r1_p_stat_SR_1 r0_d0 r0_d1 r0_a0 r0_a1 r0_a2 r1_d0 r1_d1 r1_a0 r1_a1 r1_a2 = Gen.shapeH_expdata1 realPrim s0 s1 b0 b1 e0 r0_p_lumi r0_p_mu r0_p_stat_SR_0 r0_p_stat_SR_1 := by
+  first | rfl | (unfold Gen.shapeH_batch_row0_expdata1 Gen.shapeH_expdata1; norm_num <;> ring_nf)
+
+/-- shapeH: row 0, entry 2 of the batched `expected_data` = entry 2 of the unbatched one at row 0's parameters -/
+theorem shapeH_batch_row0_expdata2_eq (lpois : ℝ → ℝ → ℝ) (lnorm : ℝ → ℝ → ℝ → ℝ) (s0 s1 b0 b1 e0 r0_p_lumi r0_p_mu r0_p_stat_SR_0 r0_p_stat_SR_1 r1_p_lumi r1_p_mu r1_p_stat_SR_0 r1_p_stat_SR_1 r0_d0 r0_d1 r0_a0 r0_a1 r0_a2 r1_d0 r1_d1 r1_a0 r1_a1 r1_a2 : ℝ) :
+    Gen.shapeH_batch_row0_expdata2 realPrim lpois lnorm s0 s1 b0 b1 e0 r0_p_lumi r0_p_mu r0_p_stat_SR_0 r0_p_stat_SR_1 r1_p_lumi r1_p_mu r1_p_stat_SR_0 r1_p_stat_SR_1 r0_d0 r0_d1 r0_a0 r0_a1 r0_a2 r1_d0 r1_d1 r1_a0 r1_a1 r1_a2 = Gen.shapeH_expdata2 realPrim s0 s1 b0 b1 e0 r0_p_lumi r0_p_mu r0_p_stat_SR_0 r0_p_stat_SR_1 := by
+  first | rfl | (unfold Gen.shapeH_batch_row0_expdata2 Gen.shapeH_expdata2; norm_num <;> ring_nf)
+
+/-- shapeH: row 0, entry 3 of the batched `expected_data` = entry 3 of the unbatched one at row 0's parameters -/
+theorem shapeH_batch_row0_expdata3_eq (lpois : ℝ → ℝ → ℝ) (lnorm : ℝ → ℝ → ℝ → ℝ) (s0 s1 b0 b1 e0 r0_p_lumi r0_p_mu r0_p_stat_SR_0 r0_p_stat_SR_1 r1_p_lumi r1_p_mu r1_p_stat_SR_0 r1_p_stat_SR_1 r0_d0 r0_d1 r0_a0 r0_a1 r0_a2 r1_d0 r1_d1 r1_a0 r1_a1 r1_a2 : ℝ) :
+    Gen.shapeH_batch_row0_expdata3 realPrim lpois lnorm s0 s1 b0 b1 e0 r0_p_lumi r0_p_mu r0_p_stat_SR_0 r0_p_stat_SR_1 r1_p_lumi r1_p_mu r1_p_stat_SR_0 r1_p_stat_SR_1 r0_d0 r0_d1 r0_a0 r0_a1 r0_a2 r1_d0 r1_d1 r1_a0 r1_a1 r1_a2 = Gen.shapeH_expdata3 realPrim s0 s1 b0 b1 e0 r0_p_lumi r0_p_mu r0_p_stat_SR_0 r0_p_stat_SR_1 := by
+  first | rfl | (unfold Gen.shapeH_batch_row0_expdata3 Gen.shapeH_expdata3; norm_num <;> ring_nf)
+
+/-- shapeH: row 0, entry 4 of the batched `expected_data` = entry 4 of the unbatched one at row 0's parameters -/
+theorem shapeH_batch_row0_expdata4_eq (lpois : ℝ → ℝ → ℝ) (lnorm : ℝ → ℝ → ℝ → ℝ) (s0 s1 b0 b1 e0 r0_p_lumi r0_p_mu r0_p_stat_SR_0 r0_p_stat_SR_1 r1_p_lumi r1_p_mu r1_p_stat_SR_0 r1_p_stat_SR_1 r0_d0 r0_d1 r0_a0 r0_a1 r0_a2 r1_d0 r1_d1 r1_a0 r1_a1 r1_a2 : ℝ) :
+    Gen.shapeH_batch_row0_expdata4 realPrim lpois lnorm s0 s1 b0 b1 e0 r0_p_lumi r0_p_mu r0_p_stat_SR_0 r0_p_stat_SR_1 r1_p_lumi r1_p_mu r1_p_stat_SR_0 r1_p_stat_SR_1 r0_d0 r0_d1 r0_a0 r0_a1 r0_a2 r1_d0 r1_d1 r1_a0 r1_a1 r1_a2 = Gen.shapeH_expdata4 realPrim s0 s1 b0 b1 e0 r0_p_lumi r0_p_mu r0_p_stat_SR_0 r0_p_stat_SR_1 := by
+  first | rfl | (unfold Gen.shapeH_batch_row0_expdata4 Gen.shapeH_expdata4; norm_num <;> ring_nf)
+
+/-- shapeH: row 1 of the batched `logpdf` = the unbatched `logpdf` of row 1's parameters on row 1's data -/
+theorem shapeH_batch_row1_logpdf_eq (lpois : ℝ → ℝ → ℝ) (lnorm : ℝ → ℝ → ℝ → ℝ) (s0 s1 b0 b1 e0 r0_p_lumi r0_p_mu r0_p_stat_SR_0 r0_p_stat_SR_1 r1_p_lumi r1_p_mu r1_p_stat_SR_0 r1_p_stat_SR_1 r0_d0 r0_d1 r0_a0 r0_a1 r0_a2 r1_d0 r1_d1 r1_a0 r1_a1 r1_a2 : ℝ) :
+    Gen.shapeH_batch_row1_logpdf realPrim lpois lnorm s0 s1 b0 b1 e0 r0_p_lumi r0_p_mu r0_p_stat_SR_0 r0_p_stat_SR_1 r1_p_lumi r1_p_mu r1_p_stat_SR_0 r1_p_stat_SR_1 r0_d0 r0_d1 r0_a0 r0_a1 r0_a2 r1_d0 r1_d1 r1_a0 r1_a1 r1_a2 = Gen.shapeH_logpdf realPrim lpois lnorm s0 s1 b0 b1 e0 r1_p_lumi r1_p_mu r1_p_stat_SR_0 r1_p_stat_SR_1 r1_d0 r1_d1 r1_a0 r1_a1 r1_a2 := by
+  first | rfl | (unfold Gen.shapeH_batch_row1_logpdf Gen.shapeH_logpdf; norm_num <;> ring_nf)
+
+/-- shapeH: row 1, entry 0 of the batched `expected_data` = entry 0 of the unbatched one at row 1's parameters -/
+theorem shapeH_batch_row1_expdata0_eq (lpois : ℝ → ℝ → ℝ) (lnorm : ℝ → ℝ → ℝ → ℝ) (s0 s1 b0 b1 e0 r0_p_lumi r0_p_mu r0_p_stat_SR_0 r0_p_stat_SR_1 r1_p_lumi r1_p_mu r1_p_stat_SR_0 r1_p_stat_SR_1 r0_d0 r0_d1 r0_a0 r0_a1 r0_a2 r1_d0 r1_d1 r1_a0 r1_a1 r1_a2 : ℝ) :
+    Gen.shapeH_batch_row1_expdata0 realPrim lpois lnorm s0 s1 b0 b1 e0 r0_p_lumi r0_p_mu r0_p_stat_SR_0 r0_p_stat_SR_1 r1_p_lumi r1_p_mu r1_p_stat_SR_0 r1_p_stat_SR_1 r0_d0 r0_d1 r0_a0 r0_a1 r0_a2 r1_d0 r1_d1 r1_a0 r1_a1 r1_a2 = Gen.shapeH_expdata0 realPrim s0 s1 b0 b1 e0 r1_p_lumi r1_p_mu r1_p_stat_SR_0 r1_p_stat_SR_1 := by
+  first | rfl | (unfold Gen.shapeH_batch_row1_expdata0 Gen.shapeH_expdata0; norm_num <;> ring_nf)
+
+/-- shapeH: row 1, entry 1 of the batched `expected_data` = entry 1 of the unbatched one at row 1's parameters -/
+theorem shapeH_batch_row1_expdata1_eq (lpois : ℝ → ℝ → ℝ) (lnorm : ℝ → ℝ → ℝ → ℝ) (s0 s1 b0 b1 e0 r0_p_lumi r0_p_mu r0_p_stat_SR_0 r0_p_stat_SR_1 r1_p_lumi r1_p_mu r1_p_stat_SR_0 r1_p_stat_SR_1 r0_d0 r0_d1 r0_a0 r0_a1 r0_a2 r1_d0 r1_d1 r1_a0 r1_a1 r1_a2 : ℝ) :
+    Gen.shapeH_batch_row1_expdata1 realPrim lpois lnorm s0 s1 b0 b1 e0 r0_p_lumi r0_p_mu r0_p_stat_SR_0 r0_p_stat_SR_1 r1_p_lumi r1_p_mu r1_p_stat_SR_0 r1_p_stat_SR_1 r0_d0 r0_d1 r0_a0 r0_a1 r0_a2 r1_d0 r1_d1 r1_a0 r1_a1 r1_a2 = Gen.shapeH_expdata1 realPrim s0 s1 b0 b1 e0 r1_p_lumi r1_p_mu r1_p_stat_SR_0 r1_p_stat_SR_1 := by
+  first | rfl | (unfold Gen.shapeH_batch_row1_expdata1 Gen.shapeH_expdata1; norm_num <;> ring_nf)
+
+/-- shapeH: row 1, entry 2 of the batched `expected_data` = entry 2 of the unbatched one at row 1's parameters -/
+theorem shapeH_batch_row1_expdata2_eq (lpois : ℝ → ℝ → ℝ) (lnorm : ℝ → ℝ → ℝ → ℝ) (s0 s1 b0 b1 e0 r0_p_lumi r0_p_mu r0_p_stat_SR_0 r0_p_stat_SR_1 r1_p_lumi r1_p_mu r1_p_stat_SR_0 r1_p_stat_SR_1 r0_d0 r0_d1 r0_a0 r0_a1 r0_a2 r1_d0 r1_d1 r1_a0 r1_a1 r1_a2 : ℝ) :
+    Gen.shapeH_batch_row1_expdata2 realPrim lpois lnorm s0 s1 b0 b1 e0 r0_p_lumi r0_p_mu r0_p_stat_SR_0 r0_p_stat_SR_1 r1_p_lumi r1_p_mu r1_p_stat_SR_0 r1_p_stat_SR_1 r0_d0 r0_d1 r0_a0 r0_a1 r0_a2 r1_d0 r1_d1 r1_a0 r1_a1 r1_a2 = Gen.shapeH_expdata2 realPrim s0 s1 b0 b1 e0 r1_p_lumi r1_p_mu r1_p_stat_SR_0 r1_p_stat_SR_1 := by
+  first | rfl | (unfold Gen.shapeH_batch_row1_expdata2 Gen.shapeH_expdata2; norm_num <;> ring_nf)
+
+/-- shapeH: row 1, entry 3 of the batched `expected_data` = entry 3 of the unbatched one at row 1's parameters -/
+theorem shapeH_batch_row1_expdata3_eq (lpois : ℝ → ℝ → ℝ) (lnorm : ℝ → ℝ → ℝ → ℝ) (s0 s1 b0 b1 e0 r0_p_lumi r0_p_mu r0_p_stat_SR_0 r0_p_stat_SR_1 r1_p_lumi r1_p_mu r1_p_stat_SR_0 r1_p_stat_SR_1 r0_d0 r0_d1 r0_a0 r0_a1 r0_a2 r1_d0 r1_d1 r1_a0 r1_a1 r1_a2 : ℝ) :
+    Gen.shapeH_batch_row1_expdata3 realPrim lpois lnorm s0 s1 b0 b1 e0 r0_p_lumi r0_p_mu r0_p_stat_SR_0 r0_p_stat_SR_1 r1_p_lumi r1_p_mu r1_p_stat_SR_0 r1_p_stat_SR_1 r0_d0 r0_d1 r0_a0 r0_a1 r0_a2 r1_d0 r1_d1 r1_a0 r1_a1 r1_a2 = Gen.shapeH_expdata3 realPrim s0 s1 b0 b1 e0 r1_p_lumi r1_p_mu r1_p_stat_SR_0 r1_p_stat_SR_1 := by
+  first | rfl | (unfold Gen.shapeH_batch_row1_expdata3 Gen.shapeH_expdata3; norm_num <;> ring_nf)
+
+/-- shapeH: row 1, entry 4 of the batched `expected_data` = entry 4 of the unbatched one at row 1's parameters -/
+theorem shapeH_batch_row1_expdata4_eq (lpois : ℝ → ℝ → ℝ) (lnorm : ℝ → ℝ → ℝ → ℝ) (s0 s1 b0 b1 e0 r0_p_lumi r0_p_mu r0_p_stat_SR_0 r0_p_stat_SR_1 r1_p_lumi r1_p_mu r1_p_stat_SR_0 r1_p_stat_SR_1 r0_d0 r0_d1 r0_a0 r0_a1 r0_a2 r1_d0 r1_d1 r1_a0 r1_a1 r1_a2 : ℝ) :
+    Gen.shapeH_batch_row1_expdata4 realPrim lpois lnorm s0 s1 b0 b1 e0 r0_p_lumi r0_p_mu r0_p_stat_SR_0 r0_p_stat_SR_1 r1_p_lumi r1_p_mu r1_p_stat_SR_0 r1_p_stat_SR_1 r0_d0 r0_d1 r0_a0 r0_a1 r0_a2 r1_d0 r1_d1 r1_a0 r1_a1 r1_a2 = Gen.shapeH_expdata4 realPrim s0 s1 b0 b1 e0 r1_p_lumi r1_p_mu r1_p_stat_SR_0 r1_p_stat_SR_1 := by
+  first | rfl | (unfold Gen.shapeH_batch_row1_expdata4 Gen.shapeH_expdata4; norm_num <;> ring_nf)
+
 /-- the unbatched expected data of shapeF: the two rates, then — in auxiliary-data order — the Poisson rates `γ·τ` of the uncorrelated-shape
 bins and the means `γ` of the MC-statistical bins -/
 theorem shapeF_expected_data_layout (s0 s1 es0 es1 b0 b1 u0 u1 eb0 eb1 p_mu p_uncorr_0 p_uncorr_1 p_stat_SR_0 p_stat_SR_1 : ℝ) :
